@@ -100,6 +100,8 @@ func (ra *RouterAdvertisement) marshal() ([]byte, error) {
 		return nil, err
 	}
 
+	// ICMPv6 header (type, code 0, checksum filled in by icmp6SendPacket) in front of the RA body
+	b = append([]byte{byte(ipv6.ICMPTypeRouterAdvertisement), 0, 0, 0}, b...)
 	b = append(b, ob...)
 
 	return b, nil
@@ -164,8 +166,8 @@ type RouterSolicitation struct {
 func (rs *RouterSolicitation) Type() ipv6.ICMPType { return ipv6.ICMPTypeRouterSolicitation }
 
 func (rs *RouterSolicitation) marshal() ([]byte, error) {
-	// b contains reserved area.
-	b := make([]byte, rsLen)
+	// b contains the ICMPv6 header (type, code 0, checksum filled in by icmp6SendPacket) and the reserved area.
+	b := append([]byte{byte(ipv6.ICMPTypeRouterSolicitation), 0, 0, 0}, make([]byte, rsLen)...)
 
 	ob, err := marshalOptions(rs.Options)
 	if err != nil {
